@@ -1,0 +1,9 @@
+//go:build verif
+
+package leveldb
+
+// BytesPrefixRangeVerif re-exports bytesPrefixRange for the verification harness (add-only hook).
+func BytesPrefixRangeVerif(prefix, start []byte) (lo, hi []byte) {
+	r := bytesPrefixRange(prefix, start)
+	return r.Start, r.Limit
+}
